@@ -234,7 +234,7 @@ func main() {
 func init() {
 	// writer streams
 	streams["w"] = func(seed int64, idx int) *scenario {
-		return runWriterScenario(seed*1000003+int64(idx), wOpts{invalid: true, prepared: true, compress: true, multi: idx%4 == 0, bigPayload: idx%16 == 0}, -1, "")
+		return runWriterScenario(seed*1000003+int64(idx), wOpts{invalid: true, prepared: true, compress: true, multi: idx%4 == 0, bigPayload: idx%8 == 0}, -1, "")
 	}
 	streams["wclose"] = func(seed int64, idx int) *scenario {
 		return runWriterScenario(seed*1000003+int64(idx), wOpts{closes: true, invalid: true, prepared: true, compress: true, multi: idx%4 == 0}, -1, "")
